@@ -85,7 +85,7 @@ CLAIMED = {
         "start/end/burn-in triples (burn-in on, one second around, between rebalance instants, absent), all rebalance kinds and alpha models, "
         "with PCM call times, fills, the equity curve (values recomputed from cash + holdings at the close) and the reindexed allocation "
         "table checked directly.",
-   note=TRUST + "The reindex/forward-fill of get_target_allocations is a pandas call checked by the predicate only. get_equity_curve() on an empty curve raises AttributeError in pandas (recorded as an observation, not claimed).",
+   note=TRUST + "The allocation table (get_target_allocations: reindex with method='ffill', burn-in cut) has its own model (AllocTable.v) with theorems (dates = equity dates not before the burn-in date; each date carries the whole row of the latest rebalance on or before it, nothing before the first; a column the latest row lacks stays missing) and is compared with the implementation's table on every session, fed with the rows and equity dates the session itself recorded. get_equity_curve() on an empty curve raises AttributeError in pandas (recorded as an observation, not claimed).",
    design="7/C14", technique="Coq proof: trace invariants by induction over the event list + model/implementation correspondence check"),
  'C18': dict(
    text="Machine-checked theorems (props/C18.v) about what could make the code not a function of its inputs: the rebalance asset list, sums and "
